@@ -9,4 +9,8 @@ CHECKS = {
         "text": "Theorems (closed under the global context): the three genetic-code tables regenerated from /repo equal NCBI tables 1/2/5 on all 64 codons and map --- to -; the IUPAC expansion table equals the base-set semantics; for all 256^3 byte triples and every supported code the modelled translateCodon equals the spec decision (shared amino acid / X / gap) - proved by a complete 256-byte classification sweep and a 17^3 class sweep; Sequence.Translate yields floor((L-frame)/3) residues, an error iff that is zero; three-frame naming; CodonAlign of a gapped translation is 3x long, preserves the nucleotides minus <= 2 trailing bases and translates back. The two TranslateByReference clauses are explicit statements checked on every generated case (bounded), not proved.",
         "note": "Partial: the by-reference clauses are validated by correspondence only. Trusted: kernel+VM, translator/hooks, harness, the hand model (alignment rows with distinct names; AddSequence renaming is C01's subject).",
     },
+    "C04": {
+        "text": "Theorems (closed under the global context) for the model of SubAlign, SelectSites, InversePositions, InverseCoordinates, TrimSequences, DiffWithFirst/ReplaceMatchChars and Split: success exactly on in-range arguments (the <-> covers -1, 0, L-1, L, L+1), returned columns are exactly the addressed ones in the addressed order with names kept, complements are sorted/disjoint/exhaustive, windows tile rows, diff-then-replace is the identity, partition blocks are the assigned columns and partition the sites. RefCoordinates minimal-window, prefix+suffix Concat re-assembly and transpose-twice are explicit statements checked on every generated case (bounded), not proved.",
+        "note": "Partial: three clauses validated by correspondence only (see Props/C04.v *_statement). Trusted: kernel+VM, harness, hand model over rectangular rows with distinct names.",
+    },
 }
